@@ -64,6 +64,7 @@ func c09Cases(tier string, seed int64) []core.Case {
 		}
 		cases = append(cases, core.Case{ID: fmt.Sprintf("early-reply/dotu=%v", dotu), Run: func(ctx *core.Ctx) core.Result { return c09EarlyReply(ctx, dotu) }})
 		cases = append(cases, core.Case{ID: fmt.Sprintf("errors/dotu=%v", dotu), Run: func(ctx *core.Ctx) core.Result { return c09Errors(ctx, dotu) }})
+		cases = append(cases, core.Case{ID: fmt.Sprintf("refused-version/dotu=%v", dotu), Run: func(ctx *core.Ctx) core.Result { return c09VersionRefused(ctx, dotu) }})
 		cases = append(cases, core.Case{ID: fmt.Sprintf("tagiface/dotu=%v", dotu), Run: func(ctx *core.Ctx) core.Result { return c09TagIface(ctx, dotu, tier == "thorough") }})
 		cases = append(cases, core.Case{ID: fmt.Sprintf("tagiface-all-operations/dotu=%v", dotu), Run: func(ctx *core.Ctx) core.Result { return c09TagMixed(ctx, dotu, tier == "thorough") }})
 	}
@@ -649,6 +650,83 @@ func c09Errors(ctx *core.Ctx, dotu bool) core.Result {
 	res.Sample(map[string]interface{}{"scenario": "errors", "dotu": dotu, "rerror_calls": 200})
 	peerProblems(&res, s.p, "errors")
 	conservation(&res, s, 0, "errors")
+	return res
+}
+
+// c09VersionRefused: a Tversion sent through the client's Rpc (a renegotiation attempt) that the server answers with
+// an Rerror — carrying NOTAG like the request — or with a reply of the wrong type: the caller gets the server's text and
+// number (or an error), and the connection, on which the server only refused one request, keeps working.
+func c09VersionRefused(ctx *core.Ctx, dotu bool) core.Result {
+	var res core.Result
+	s, err := connect(8192, dotu, true)
+	if err != nil {
+		res.Inconclusive = "c09: " + err.Error()
+		return res
+	}
+	defer s.close()
+	granted := s.c.Dotu
+	ver := "9P2000"
+	if dotu {
+		ver = "9P2000.u"
+	}
+	for i := 0; i < 30 && len(res.Violations) == 0; i++ {
+		text, num := fmt.Sprintf("version refused, try %d", i), uint32(60+i)
+		wrong := i%3 == 2
+		s.p.RefuseVersion(func(t *wire.Msg) *wire.Msg {
+			if wrong {
+				return &wire.Msg{Type: wire.Rclunk}
+			}
+			r := &wire.Msg{Type: wire.Rerror, Ename: text}
+			if granted {
+				r.Ecode = num
+			}
+			return r
+		})
+		tc := go9p.NewFcall(8192)
+		if e := go9p.PackTversion(tc, 8192, ver); e != nil {
+			res.Inconclusive = "c09: PackTversion: " + e.Error()
+			return res
+		}
+		type out struct {
+			rc *go9p.Fcall
+			e  error
+		}
+		done := make(chan out, 1)
+		go func() {
+			rc, e := s.c.Rpc(tc)
+			done <- out{rc, e}
+		}()
+		var o out
+		select {
+		case o = <-done:
+		case <-time.After(W):
+			res.Violate("C09;refused-version;no-return", "a Tversion the server answered with an Rerror never returned to its caller", nil)
+			return res
+		}
+		s.p.RefuseVersion(nil)
+		res.Evals++
+		ge, ok := o.e.(*go9p.Error)
+		wantNum := uint32(0)
+		if granted {
+			wantNum = num
+		}
+		switch {
+		case o.e == nil:
+			res.Violate("C09;refused-version;as-success", "a Tversion answered with something else than an Rversion returned success", nil)
+		case wrong:
+		case !ok:
+			res.Violate("C09;refused-version;rerror-type", fmt.Sprintf("the Rerror answering a Tversion was returned as %T, not *Error", o.e), nil)
+		case ge.Err != text || ge.Errornum != wantNum:
+			res.Violate("C09;refused-version;rerror-content", fmt.Sprintf("the Rerror answering a Tversion was returned as %q/%d, the server sent %q/%d", ge.Err, ge.Errornum, text, wantNum), nil)
+		}
+		// the connection keeps working
+		if msg := s.do(call{kind: "read", fidn: 900 + uint32(i), offset: uint64(i), count: 21}); msg != "" {
+			res.Violate("C09;wrong-result;after-refused-version", msg, nil)
+		}
+		res.Sig(fmt.Sprintf("refused-version|%v|wrong=%v", dotu, wrong))
+	}
+	res.Sample(map[string]interface{}{"scenario": "Tversion through Rpc answered with Rerror / a wrong type under NOTAG", "dotu": dotu})
+	peerProblems(&res, s.p, "refused-version")
 	return res
 }
 
